@@ -51,15 +51,15 @@ class UlHistories(Stream):
         for ia, ea in L.PAIRS:
             slow = ia == 1 or ea == 1
             for kind in ("octet", "carry", "wrap24"):
-                n = (5 if slow else 12) if quick else (12 if slow else 40)
+                n = (8 if slow else 20) if quick else (16 if slow else 40)
                 cs.append(history(rng, ia, ea, kind, n, lead_newctx=rng.chance(1, 2)))
         # one long history per AES-only pair, then random ones
         for ia, ea in [(2, 0), (2, 2)]:
             cs.append(history(rng, ia, ea, "wrap24", 36, True))
-        for i in range(12 if quick else 300):
+        for i in range(30 if quick else 400):
             ia, ea = rng.choice(L.PAIRS)
             slow = ia == 1 or ea == 1
-            n = rng.range(1, 6 if slow else 30) if quick else rng.range(1, 40)
+            n = rng.range(1, 8 if slow else 40) if quick else rng.range(1, 40)
             cs.append(history(rng, ia, ea, rng.choice(["octet", "carry", "wrap24", "mid"]), n, rng.chance(1, 2)))
         return cs
 
